@@ -150,7 +150,7 @@ func ParseResolve(text string, sys resolve.System) (*resolve.Graph, error) {
 	}
 
 	// Create edges.
-	sources := make([]resolve.NodeID, len(g.Nodes)+1)
+	sources := make([]resolve.NodeID, len(s.rows)+1)
 	for i, r := range s.rows {
 		// Record the current index as the source at this indentation level.
 		sources[r.depth] = nodes[i]
@@ -253,6 +253,9 @@ func parseResolve(text string) (*resolveSchema, error) {
 		switch items := strings.Split(tl, " "); len(items) {
 		case 1: // This is a labeled requirement or an error.
 			requirement := items[0]
+			if requirement == "" {
+				return nil, fmt.Errorf("line %d: expected a requirement", r.line)
+			}
 			if requirement[0] != '$' && r.err == "" {
 				return nil, fmt.Errorf("line %d: expected a label, got %q", r.line, requirement)
 			}
